@@ -45,7 +45,11 @@ func loadWorld(pkgDirs []string) (*World, error) {
 			return nil, fmt.Errorf("package %s: %v", p.PkgPath, p.Errors[0])
 		}
 		w.Fset = p.Fset
-		u := &Unit{Pkg: p, Short: p.Types.Name(), Funcs: map[string]*ast.FuncDecl{}, FSpecs: map[string]*FuncSpec{}, TSpecs: map[string]*TypeSpec{}}
+		short := p.Types.Name()
+		if short == "main" && p.PkgPath != modPath {
+			short = "main." + filepath.Base(p.PkgPath)
+		}
+		u := &Unit{Pkg: p, Short: short, Funcs: map[string]*ast.FuncDecl{}, FSpecs: map[string]*FuncSpec{}, TSpecs: map[string]*TypeSpec{}}
 		for _, f := range p.Syntax {
 			for _, d := range f.Decls {
 				fd, ok := d.(*ast.FuncDecl)
@@ -230,6 +234,7 @@ func (w *World) verifyFunc(u *Unit, name string) (ex *Exec, err error) {
 	if body == nil {
 		return ex, fmt.Errorf("function %s not found in %s", name, u.Pkg.PkgPath)
 	}
+	ex.computeBoxed(u, name)
 	ex.bodyHash = fmt.Sprintf("%x", sha256.Sum256([]byte(ex.nodeSrc(body))))[:16]
 	st := ex.newBareState()
 	var sig *types.Signature
@@ -312,7 +317,15 @@ func (w *World) verifyFunc(u *Unit, name string) (ex *Exec, err error) {
 				return true
 			}
 			if _, ok := st.vars[o]; !ok {
-				v := ex.freshVal(st, "cap."+o.Name(), o.Type())
+				var v *Val
+				if _, isStruct := o.Type().Underlying().(*types.Struct); isStruct {
+					ex.boxed[o] = true
+					v = ex.freshVal(st, "cap."+o.Name(), types.NewPointer(o.Type()))
+					v.Boxed = true
+					st.assume(gt(v.Term, intLit(0)))
+				} else {
+					v = ex.freshVal(st, "cap."+o.Name(), o.Type())
+				}
 				st.vars[o] = v
 				st.names[o.Name()] = o
 				if _, clash := st.bound[o.Name()]; !clash {
@@ -387,6 +400,12 @@ func (w *World) verifyFunc(u *Unit, name string) (ex *Exec, err error) {
 			}
 		}
 	}
+	// locks the caller holds
+	if fs != nil {
+		for _, h := range fs.Holds {
+			st.held[h] = &lockHeld{snap: st.clone()}
+		}
+	}
 	st.old = st.clone()
 	st.old.old = nil
 	ex.entryState = st.clone()
@@ -451,7 +470,17 @@ func (w *World) verifyFunc(u *Unit, name string) (ex *Exec, err error) {
 // atExit asserts postconditions on one exit path and adds the canary.
 func (ex *Exec) atExit(e *State, fs *FuncSpec, u *Unit, rets []*Val, sig *types.Signature, pos token.Pos) {
 	for key := range e.held {
-		ex.oblige(e, "lock-released", key, pos, tFalse, nil)
+		callerHolds := false
+		if fs != nil {
+			for _, h := range fs.Holds {
+				if h == key {
+					callerHolds = true
+				}
+			}
+		}
+		if !callerHolds {
+			ex.oblige(e, "lock-released", key, pos, tFalse, nil)
+		}
 	}
 	if fs != nil {
 		// bind results; parameters denote entry values
@@ -856,4 +885,82 @@ func (ex *Exec) checkAssignsNone(body *ast.BlockStmt, pos token.Pos) {
 		return true
 	})
 	ex.obligeAST("assigns-none", "", pos, len(bad) == 0, "writes to non-local state: "+strings.Join(bad, ", "), nil)
+}
+
+// computeBoxed finds struct-typed locals of the enclosing declaration that
+// live on the heap: address taken, pointer-receiver method called on them or
+// on one of their fields, or captured by a closure.
+func (ex *Exec) computeBoxed(u *Unit, name string) {
+	ex.boxed = map[types.Object]bool{}
+	base := name
+	if i := strings.Index(name, "#"); i >= 0 {
+		base = name[:i]
+	}
+	fd := u.Funcs[base]
+	if fd == nil || fd.Body == nil {
+		return
+	}
+	isStructLocal := func(e ast.Expr) types.Object {
+		for {
+			switch x := ast.Unparen(e).(type) {
+			case *ast.SelectorExpr:
+				if si := ex.Info.Selections[x]; si != nil && si.Kind() == types.FieldVal && !si.Indirect() {
+					e = x.X
+					continue
+				}
+				return nil
+			case *ast.Ident:
+				o, ok := ex.Info.ObjectOf(x).(*types.Var)
+				if !ok || o.IsField() || o.Pkg() == nil || o.Parent() == o.Pkg().Scope() {
+					return nil
+				}
+				if _, ok := o.Type().Underlying().(*types.Struct); ok {
+					return o
+				}
+				return nil
+			default:
+				return nil
+			}
+		}
+	}
+	var lits []*ast.FuncLit
+	ast.Inspect(fd.Body, func(x ast.Node) bool {
+		switch n := x.(type) {
+		case *ast.UnaryExpr:
+			if n.Op == token.AND {
+				if o := isStructLocal(n.X); o != nil {
+					ex.boxed[o] = true
+				}
+			}
+		case *ast.SelectorExpr:
+			if si := ex.Info.Selections[n]; si != nil && si.Kind() == types.MethodVal {
+				if fn, ok := si.Obj().(*types.Func); ok {
+					if r := fn.Type().(*types.Signature).Recv(); r != nil {
+						if _, isPtr := r.Type().(*types.Pointer); isPtr {
+							if o := isStructLocal(n.X); o != nil {
+								ex.boxed[o] = true
+							}
+						}
+					}
+				}
+			}
+		case *ast.FuncLit:
+			lits = append(lits, n)
+		}
+		return true
+	})
+	for _, lit := range lits {
+		ast.Inspect(lit.Body, func(x ast.Node) bool {
+			if id, ok := x.(*ast.Ident); ok {
+				if o, ok := ex.Info.Uses[id].(*types.Var); ok && !o.IsField() && o.Pkg() != nil && o.Parent() != o.Pkg().Scope() {
+					if o.Pos() < lit.Pos() || o.Pos() >= lit.End() {
+						if _, isStruct := o.Type().Underlying().(*types.Struct); isStruct {
+							ex.boxed[o] = true
+						}
+					}
+				}
+			}
+			return true
+		})
+	}
 }
